@@ -113,6 +113,8 @@ impl Crypto {
             warn!("Crypto settings allow unencrypted connections")
         }
         let mut algos = Algorithms { algorithm_speeds: smallvec![], allow_unencrypted: unencrypted };
+        #[cfg(feature = "dswd_vpncloud_verif")]
+        let allowed_algos = verif_apply_forced_speeds(allowed_algos, &mut algos);
         let duration = Duration::from_secs_f32(SPEED_TEST_TIME);
         let mut speeds = Vec::new();
         for algo in allowed_algos {
@@ -431,6 +433,85 @@ impl<P: Payload> PeerCrypto<P> {
 pub fn is_init_message(msg: &[u8]) -> bool {
     // HOT PATH
     !msg.is_empty() && msg[0] == INIT_MESSAGE_FIRST_BYTE
+}
+
+// ---- verification hooks (guarded) ----
+
+/// Prescribed speeds (AES128, AES256, CHACHA20) used instead of the 0.1 s-per-cipher measurement.
+#[cfg(feature = "dswd_vpncloud_verif")]
+pub type VerifSpeeds = [f32; 3];
+
+#[cfg(feature = "dswd_vpncloud_verif")]
+thread_local! {
+    static VERIF_FORCED_SPEEDS: std::cell::Cell<Option<VerifSpeeds>> = const { std::cell::Cell::new(None) };
+}
+
+/// While set (per thread), `Crypto::new` fills the speed table from these values and measures nothing.
+#[cfg(feature = "dswd_vpncloud_verif")]
+pub fn verif_force_speeds(speeds: Option<VerifSpeeds>) {
+    VERIF_FORCED_SPEEDS.with(|s| s.set(speeds))
+}
+
+#[cfg(feature = "dswd_vpncloud_verif")]
+fn verif_apply_forced_speeds(
+    allowed: Vec<&'static aead::Algorithm>, algos: &mut Algorithms,
+) -> Vec<&'static aead::Algorithm> {
+    match VERIF_FORCED_SPEEDS.with(|s| s.get()) {
+        None => allowed,
+        Some(speeds) => {
+            for algo in allowed {
+                let speed = if algo == &aead::AES_128_GCM {
+                    speeds[0]
+                } else if algo == &aead::AES_256_GCM {
+                    speeds[1]
+                } else {
+                    speeds[2]
+                };
+                algos.algorithm_speeds.push((algo, speed));
+            }
+            vec![]
+        }
+    }
+}
+
+#[cfg(feature = "dswd_vpncloud_verif")]
+impl Crypto {
+    pub fn verif_algorithms(&self) -> &Algorithms {
+        &self.algorithms
+    }
+
+    pub fn verif_trusted_keys(&self) -> Vec<Ed25519PublicKey> {
+        self.trusted_keys.to_vec()
+    }
+
+    pub fn verif_public_key(&self) -> Ed25519PublicKey {
+        let mut key = [0; ED25519_PUBLIC_KEY_LEN];
+        key.clone_from_slice(self.key_pair.public_key().as_ref());
+        key
+    }
+}
+
+#[cfg(feature = "dswd_vpncloud_verif")]
+impl<P: Payload> PeerCrypto<P> {
+    pub fn verif_salted_hash(&self) -> Option<init::SaltedNodeIdHash> {
+        self.init.as_ref().map(|i| i.verif_salted_hash())
+    }
+
+    pub fn verif_stage(&self) -> Option<u8> {
+        self.init.as_ref().map(|i| i.stage())
+    }
+
+    pub fn verif_core(&mut self) -> Option<&mut CryptoCore> {
+        self.core.as_mut()
+    }
+
+    pub fn verif_is_unencrypted(&self) -> bool {
+        self.unencrypted
+    }
+
+    pub fn verif_has_rotation(&self) -> bool {
+        self.rotation.is_some()
+    }
 }
 
 #[cfg(test)]
